@@ -633,6 +633,7 @@ func RunCommon(prop string, c *run.Ctx, s *kit.Summary, children func([]Job, int
 		if c.Replay == "" {
 			RaceRun("./cmd/c02", c, s, r)
 			DualStackRuns(c, s, r)
+			LazyTargeterRuns(c, s, r)
 		}
 	}
 }
